@@ -27,6 +27,8 @@ type prep struct {
 
 	u0, u1, stranger neotest.Signer
 	u0k, u1k         *keys.PrivateKey
+	admk             *keys.PrivateKey // appointed admin of own.com (not its owner)
+	pre              map[string]func() error
 	node0, node1     *keys.PrivateKey // node0: candidate in both lists and in the previous map; node1: fresh
 	cand0, cand1     *keys.PrivateKey // cand0: not yet a candidate; cand1: listed
 	member           *keys.PrivateKey // placement roster member
@@ -136,10 +138,11 @@ func newPrepWith(b *runner.Batch, n int, set world.Set) *prep {
 	p.u0k, p.u1k = world.Key(b.Seed, b.Index, "c03-user", 0), world.Key(b.Seed, b.Index, "c03-user", 1)
 	p.u0, p.u1 = world.Single(p.u0k), world.Single(p.u1k)
 	p.stranger = world.Single(world.Key(b.Seed, b.Index, "c03-stranger", 0))
+	p.admk = world.Key(b.Seed, b.Index, "c03-admin", 0)
 	p.node0, p.node1 = world.Key(b.Seed, b.Index, "c03-node", 0), world.Key(b.Seed, b.Index, "c03-node", 1)
 	p.cand0, p.cand1 = world.Key(b.Seed, b.Index, "c03-cand", 0), world.Key(b.Seed, b.Index, "c03-cand", 1)
 	p.member = world.Key(b.Seed, b.Index, "c03-member", 0)
-	for _, k := range []*keys.PrivateKey{p.u0k, p.u1k, p.cand0, p.cand1, p.node0, p.node1} {
+	for _, k := range []*keys.PrivateKey{p.u0k, p.u1k, p.admk, p.cand0, p.cand1, p.node0, p.node1} {
 		w.FundGAS(world.Hash160Of(k), 1000_0000_0000)
 	}
 	w.FundGAS(p.stranger.ScriptHash(), 1000_0000_0000)
@@ -166,6 +169,7 @@ func newPrepWith(b *runner.Batch, n int, set world.Set) *prep {
 		must(b, w.Invoke(A, w.H("container"), "commitContainerListUpdate", p.cid, []any{int64(1)}), "commit") &&
 		must(b, w.Invoke([]world.SignerSpec{world.G(p.u0)}, w.H("nns"), "register", "own.com", p.u0.ScriptHash(), "a@b.c", int64(1), int64(1), int64(100000), int64(1)), "nns register") &&
 		must(b, w.Invoke([]world.SignerSpec{world.G(p.u0)}, w.H("nns"), "addRecord", "own.com", int64(16), "first"), "nns addRecord") &&
+		must(b, w.Invoke([]world.SignerSpec{world.G(p.u0), world.G(world.Single(p.admk))}, w.H("nns"), "setAdmin", "own.com", world.Hash160Of(p.admk)), "nns setAdmin") &&
 		must(b, w.Invoke([]world.SignerSpec{world.G(p.u0)}, w.GAS, "transfer", p.u0.ScriptHash(), w.H("neofs"), int64(100_0000_0000), nil), "deposit") &&
 		must(b, w.Invoke([]world.SignerSpec{world.G(world.Single(p.cand1))}, w.H("neofs"), "innerRingCandidateAdd", p.cand1.PublicKey().Bytes()), "candidate add") &&
 		must(b, w.Invoke([]world.SignerSpec{world.G(p.u0)}, w.GAS, "transfer", p.u0.ScriptHash(), w.H("alphabet0"), int64(1000), nil), "fund alphabet0")
@@ -187,6 +191,14 @@ func newPrepWith(b *runner.Batch, n int, set world.Set) *prep {
 		p.nefs[name], p.mans[name] = a.NEFBytes, a.ManBytes
 	}
 	return p
+}
+
+func (p *prep) roleKeys(role string, n int) []*keys.PrivateKey {
+	var res []*keys.PrivateKey
+	for i := 0; i < n; i++ {
+		res = append(res, world.Key(p.b.Seed, p.b.Index, role, i))
+	}
+	return res
 }
 
 // contractName maps a manifest (artifact) name to the deployed instance used for it.
